@@ -162,6 +162,9 @@ type FaultPlan struct {
 	HoldMax int `json:"hold_max"`
 	// DeleteLowIDOnly: rconf delete never names the highest configured node id.
 	DeleteLowIDOnly bool `json:"delete_low_id_only,omitempty"`
+	// Directed: a choreographed adversary ("ack-then-crash", "vote-then-crash");
+	// see directed.go.  Its choices come from the tape.
+	Directed string `json:"directed,omitempty"`
 	// Script: faults fired at fixed points of the workload without consulting
 	// the tape (hand-written and minimised reproducers).
 	Script []ScriptedFault `json:"script,omitempty"`
